@@ -19,6 +19,7 @@
 import DfolsVerif.Proofs.BookAccT
 import DfolsVerif.Gen.BookSites
 import DfolsVerif.Spec.BookSites
+import DfolsVerif.Gen.BookCalls
 
 namespace Dfols
 namespace C03
@@ -72,6 +73,43 @@ theorem C03_label {hasH : Bool} {evs : List Ev} {s : St}
     expressions; the hard-restart merge of `solve`; every `return` of `solve_main`) are textually the ones
     the acceptor `BookAcc` mirrors — regenerated from /repo's AST on every run. -/
 theorem booksites_eq : Gen.bookSites = Spec.bookSites := by decide
+
+/-! ### layer G, semantic: the call-site protocol decided over the generated table of ALL calls
+
+  `Gen.bookCalls` lists every call of `change_point`, `add_new_point`, `add_new_sample`, `save_point` made by
+  controller.py / solver.py with its argument expressions (regenerated from the AST on every run).  The theorems
+  below are decided over the whole table and involve no reference copy: an unrelated edit keeps them, a call
+  that hands over anything else breaks them. -/
+
+/-- every point written into the interpolation set carries the FIRST sample taken there and is labelled with the
+    point counter `nx` (never the call counter `nf`) -/
+theorem C03_src_points_labelled : ∀ c ∈ Gen.bookCalls,
+    (c.callee = "change_point" → c.args.length = 4 ∧ c.args[2]? = some "rvec_list[0, :]" ∧
+        (c.args[3]? = some "self.nx" ∨ c.args[3]? = some "control.nx") ∧ c.kwargs = []) ∧
+    (c.callee = "add_new_point" → c.args = ["xnew", "rvec_list[0, :]", "self.nx"] ∧ c.kwargs = []) := by
+  decide +kernel
+
+/-- every further sample goes to a row by `add_new_sample(k, rvec_extra=rvec_list[i, :])` -/
+theorem C03_src_samples : ∀ c ∈ Gen.bookCalls, c.callee = "add_new_sample" →
+    c.args.length = 1 ∧ c.kwargs = [("rvec_extra", "rvec_list[i, :]")] := by
+  decide +kernel
+
+/-- every `save_point` hands over an absolute point together with (a) the mean of the samples ACTUALLY taken
+    (`rvec_list[:num_samples_run, :]`), their number and the point counter, or (b) the incumbent with its own
+    residual, sample count and evaluation number (`soft_restart`), or (c) `soft_restart`'s pass-through parameters -/
+theorem C03_src_saves : ∀ c ∈ Gen.bookCalls, c.callee = "save_point" →
+    c.kwargs = [("x_in_abs_coords", "True")] ∧
+    (c.args = ["x", "np.mean(rvec_list[:num_samples_run, :], axis=0)", "num_samples_run", "self.nx"] ∨
+     c.args = ["x", "np.mean(rvec_list[:num_samples_run, :], axis=0)", "num_samples_run", "control.nx"] ∨
+     c.args = ["self.model.xopt(abs_coordinates=True)", "self.model.ropt()", "self.model.nsamples[self.model.kopt]",
+               "self.model.eval_num[self.model.kopt]"] ∨
+     c.args = ["x_in_abs_coords_to_save", "rvec_to_save", "nsamples_to_save", "self.nx"]) := by
+  decide +kernel
+
+/-- non-vacuity: the table has calls of each kind -/
+example : (Gen.bookCalls.filter (·.callee = "change_point")).length = 9 ∧
+    (Gen.bookCalls.filter (·.callee = "save_point")).length = 14 ∧
+    (Gen.bookCalls.filter (·.callee = "add_new_sample")).length = 10 := by decide +kernel
 
 /-- the same for every intermediate state: whatever `solve` currently holds as its best candidate
     consists of evaluations really made at the point it is labelled with. -/
